@@ -498,7 +498,24 @@ func (sc *scen) vestingDust() bool {
 		sched = append(sched, schedEntry{t, w})
 		releases = append(releases, t)
 	}
-	id, ok := sc.createFixed(p, bi(1000), g.now, end, sched)
+	// sometimes first offer the same schedule with two instalments due at the SAME instant: it
+	// must be refused (release times strictly increasing); should it be accepted, the scenario
+	// carries on with that auction, so that the settlement shows what becomes of the instalments
+	var id uint64
+	ok := false
+	if n >= 3 && g.chance(0.3) {
+		dup := append([]schedEntry{}, sched...)
+		k := g.between(1, n-1)
+		dup[k].release = dup[k-1].release
+		if id, ok = sc.createFixed(p, bi(1000), g.now, end, dup); ok {
+			for i := k; i < n; i++ {
+				releases[i] = dup[i].release
+			}
+		}
+	}
+	if !ok {
+		id, ok = sc.createFixed(p, bi(1000), g.now, end, sched)
+	}
 	if !ok || len(sc.bidders) < 1 {
 		return false
 	}
